@@ -1,5 +1,6 @@
 import Driver.Syntax
 import Pcore.Model.Types
+import Pcore.Model.TypedVal
 /-!
 Driver ops for C05 (syntax in harness/c05):
   quote <xS> | rxquote <xS> | rt-str <xS> | rt-rx <xS> <compiles t|f> (<xBADRX>*) | rt-int <N>
@@ -43,6 +44,32 @@ partial def valOf : Sexp → Option Val
         | _ => none).map .hash
   | _ => none
 
+/-- values that may hold types: the syntax of `valOf` plus `(ty xTEXT)` = the type the text denotes (`Context.ParseType`) -/
+partial def tvalOf (env : Env) : Sexp → Option TVal
+  | .atom "u" => some .undef
+  | .atom "d" => some .dflt
+  | .list [.atom "b", b] => b.bool?.map .bool
+  | .list [.atom "i", n] => n.int?.map .int
+  | .list [.atom "f", n, t] => do let b ← n.nat?; let x ← strArg t; pure (.float b x)
+  | .list [.atom "s", s] => (strArg s).map .str
+  | .list [.atom "r", s] => (strArg s).map .regexp
+  | .list [.atom "ty", t] => (t.bytes?.bind fun bs => parseType env (decodeUtf8 bs)).map .ty
+  | .list (.atom "a" :: es) => (es.mapM (tvalOf env)).map .arr
+  | .list (.atom "h" :: es) =>
+      (es.mapM fun (e : Sexp) => match e with
+        | Sexp.list [k, v] => do let k' ← tvalOf env k; let v' ← tvalOf env v; pure (k', v')
+        | _ => none).map .hash
+  | _ => none
+
+/-- the float leaves of a value with their texts (they are the formatter oracle for `resolveV`) -/
+partial def floatLeaves : Sexp → List (Nat × Str)
+  | .list [.atom "f", n, t] =>
+    match n.nat?, strArg t with
+    | some b, some x => [(b, x)]
+    | _, _ => []
+  | .list xs => xs.flatMap floatLeaves
+  | _ => []
+
 def exec : List Sexp → String
   | [.atom "quote", s] =>
     match strArg s with
@@ -71,6 +98,20 @@ def exec : List Sexp → String
     | some x, some bl =>
       let text := printVal x
       strHex text ++ " rt=" ++ boolStr (parsesTo (mkEnv bl) text (fun e => Expr.beq e (exprOf x)))
+    | _, _ => "bad-op"
+  | [.atom "rt-tval", v, bad, fl] =>
+    -- a value that holds types: print, parse, resolve the type expressions (`types.ResolveDeferred`), compare
+    match badList bad, floatTable fl with
+    | some bl, some ft =>
+      let env := mkEnvF bl (ft ++ floatLeaves v)
+      match tvalOf env v with
+      | none => "unmodelled"
+      | some x =>
+        let text := printTVal x
+        let ok := match parseTVal env (syms text) with
+          | some y => TVal.eqGo y x && TVal.eqGo x y
+          | none => false
+        strHex text ++ " rt=" ++ boolStr ok
     | _, _ => "bad-op"
   | .atom "rt-type" :: tx :: bad :: rest =>
     -- optional third argument: the float-text oracle `((BITS xTEXT) …)` for the bounds of Float types
